@@ -208,6 +208,8 @@ def tool_level(c, have_vfio):
     for data in inputs:
         if not no_magic(data):
             continue
+        if len(c.violations) >= 3:
+            break          # enough concrete failing inputs; do not sit through more timeouts
         want = b"".join(r + b"\n" for r in py_records(data))
         backings = [("file", data), ("pipe", data), ("gz", gzip.compress(data, 1)), ("bz2", bz2.compress(data, 1)),
                     ("xz", lzma.compress(data, preset=0))]
@@ -227,12 +229,12 @@ def tool_level(c, have_vfio):
                 if via == "file":
                     with open(path, "rb") as f:
                         try:
-                            p = subprocess.run([exe, "1000000000"], stdin=f, stdout=subprocess.PIPE, stderr=subprocess.PIPE, timeout=120)
+                            p = subprocess.run([exe, "1000000000"], stdin=f, stdout=subprocess.PIPE, stderr=subprocess.PIPE, timeout=25)
                             st, out = p.returncode, p.stdout
                         except subprocess.TimeoutExpired:
                             st, out = "timeout", b""
                 else:
-                    st, out, _ = run_tool([exe, "1000000000"], stdin=blob, timeout=120)
+                    st, out, _ = run_tool([exe, "1000000000"], stdin=blob, timeout=25)
                 n += 1
                 c.count(("tool", name, via, len(data)), nontrivial=len(data) > 0, bucket="tool/remove_long_lines/%s-via-%s" % (name, via))
                 if st != 0 or out != want:
@@ -277,7 +279,7 @@ def main(argv):
             CH = 40000
             chunks = [lines[i:i + CH] for i in range(0, len(lines), CH)]
             with ThreadPoolExecutor(max_workers=6) as ex:
-                f_impl = [ex.submit(run_lines_resilient, impl, ch, 900) for ch in chunks]
+                f_impl = [ex.submit(run_lines_resilient, impl, ch, 40, None, 2) for ch in chunks]
                 f_model = [ex.submit(run_lines, drv, ch, 900) for ch in chunks] if drv else []
                 out, deaths = [], []
                 for k, f in enumerate(f_impl):
